@@ -614,6 +614,51 @@ func c18Alias(c *Check) {
 		c.Hold("R8", key, call.Pos(), msg == "", msg)
 	}
 	c.Hold("R8", "AddRcpt:single-record-site", r.FI.Decl.Pos(), len(stores) >= 1, "")
+
+	// the table is shared by everything that handles the message – a nested pipeline is started from the outer
+	// pipeline's AddRcpt with the same metadata, right after the outer one recorded its entry: the table is created
+	// where there is none and never replaced (a `= map[string]string{}` without the nil test wipes the entries of the
+	// enclosing pipeline; results and failure reports for those recipients then carry the rewritten address)
+	p := c.P
+	nNew := 0
+	p.AllFuncs(p.ServerPkgs(), func(fi *FuncInfo) {
+		fInfo := fi.Info()
+		var sites []*ast.AssignStmt
+		ast.Inspect(fi.Decl.Body, func(x ast.Node) bool {
+			if as, ok := x.(*ast.AssignStmt); ok {
+				for _, l := range as.Lhs {
+					if fv := fieldOf(fInfo, l); fv != nil && objName(fv) == "OriginalRcpts" {
+						if o := fieldOwner(p, fv); o != nil && objName(o.Obj()) == "MsgMetadata" {
+							sites = append(sites, as)
+						}
+					}
+				}
+			}
+			return true
+		})
+		if len(sites) == 0 {
+			return
+		}
+		rc := c.CtxOf(fi)
+		for _, as := range sites {
+			nNew++
+			pt, ok := rc.F.PtOfNode(as)
+			if !ok {
+				c.Hold("R8", refName(fi.Obj)+":table-created"+itoa(nNew), as.Pos(), false, "undecided: the store was not found in the flow graph")
+				continue
+			}
+			avoid := rc.F.AvoidImplying(func(atom ast.Expr) (bool, bool) {
+				if be, isBE := ast.Unparen(atom).(*ast.BinaryExpr); isBE && (be.Op == token.EQL || be.Op == token.NEQ) && isNilIdent(fInfo, be.Y) {
+					if fv := fieldOf(fInfo, be.X); fv != nil && objName(fv) == "OriginalRcpts" {
+						return be.Op == token.EQL, true // remove the edges on which the table is known to be missing
+					}
+				}
+				return false, false
+			})
+			path, found := rc.F.Reach(Query{From: rc.Entry(), Inclusive: true, Target: func(q Pt) bool { return q == pt }, AvoidEdge: avoid})
+			c.Hold("R8", refName(fi.Obj)+":table-created"+itoa(nNew), as.Pos(), !found, "the original-recipient table is replaced although one exists (the store is not under `== nil`): entries recorded by an enclosing pipeline or an earlier stage for this message are lost, per-recipient results and failure reports carry the rewritten address: "+rc.F.Describe(path))
+		}
+	})
 }
 
 // R9: the report's format and the way it is submitted agree
